@@ -14,12 +14,39 @@ BACKENDS = {"table": "", "ascent": "#[recursive_ascent]"}
 ALGOS = {"lane": ("", "default"), "lr1": ("", "disabled"), "lalr": ("#[LALR]", "disabled")}
 
 
-def annotate(g, rng, p_loc=0.35, p_fallible=0.15, recovery=False):
+def add_recovery(g, rng):
+    """add one or two alternatives containing the error terminal `!` (named "error")"""
+    g = dict(g)
+    prods = [dict(p) for p in g["prods"]]
+    for _ in range(rng.randint(1, 2)):
+        base = rng.choice(prods)
+        form = rng.random()
+        t = rng.choice(g["ts"])
+        if form < 0.3:
+            rhs = ["error"]
+        elif form < 0.55:
+            rhs = ["error", t]
+        elif form < 0.75:
+            rhs = [t, "error", rng.choice(g["ts"])]
+        elif form < 0.9 and base["rhs"]:
+            rhs = list(base["rhs"])
+            rhs[rng.randrange(len(rhs))] = "error"
+        else:
+            rhs = [base["lhs"], "error"]
+        prods.append({"lhs": base["lhs"], "rhs": rhs})
+    g["prods"] = prods
+    g["recovery"] = True
+    return g
+
+
+def annotate(g, rng, p_loc=0.35, p_fallible=0.15):
     nts = g["nts"]
     kinds = {}
     for nt in nts:
         r = rng.random()
         kinds[nt] = "V" if (nt in g["starts"] or r < 0.6) else ("unit" if r < 0.75 else "infer")
+        if any(p["lhs"] == nt and "error" in p["rhs"] for p in g["prods"]):
+            kinds[nt] = "V"
     # `infer` only for nonterminals with a single alternative mentioning no infer nonterminal and not itself
     for nt in nts:
         if kinds[nt] == "infer":
@@ -41,6 +68,20 @@ def annotate(g, rng, p_loc=0.35, p_fallible=0.15, recovery=False):
         term_pos = [j for j, s in enumerate(syms) if s["k"] == "sym" and rhs[s["i"] - 1] in g["ts"]]
         fail = {"on": False}
         mut = []
+        if "error" in rhs:
+            # `... <l:@L> <e:!> <r:@R> ...`: the action gets the recovery and the span of the error symbol
+            e = rhs.index("error")
+            syms = []
+            for i in range(len(rhs)):
+                if i == e:
+                    syms.append({"k": "L", "i": i, "sel": False})
+                    syms.append({"k": "sym", "i": i + 1, "sel": False})
+                    syms.append({"k": "R", "i": i + 1, "sel": False})
+                else:
+                    syms.append({"k": "sym", "i": i + 1, "sel": rng.random() < 0.8})
+            prods.append({"lhs": p["lhs"], "rhs": rhs, "tag": n + 1, "form": "recover", "syms": syms, "fail": fail,
+                          "mut": [], "esym": [j for j, s in enumerate(syms) if s["k"] == "sym" and s["i"] == e + 1][0] + 1})
+            continue
         if kind == "V":
             r = rng.random()
             single_v = [j for j, s in enumerate(syms) if s["k"] == "sym" and rhs[s["i"] - 1] in nts
@@ -90,18 +131,19 @@ def tla_grammar(cg):
         prods.append({"lhs": "__" + s, "rhs": [s]})
         nts.append("__" + s)
         sp[s] = len(prods)
-    return {"ts": list(cg["ts"]), "nts": nts, "prods": prods}, sp
+    ts = list(cg["ts"]) + (["error"] if cg.get("recovery") else [])
+    return {"ts": ts, "nts": nts, "prods": prods}, sp
 
 
 def eval_case(cg, start, n, inject):
     G, sp = tla_grammar(cg)
     P = []
     for p in cg["prods"]:
-        P.append({"tag": p["tag"], "form": "user" if p["form"] == "usera" else p["form"],
-                  "exact": p["form"] in ("user", "fallible"), "unit": cg["kinds"][p["lhs"]] == "unit", "syms": p["syms"],
+        P.append({"tag": p["tag"], "form": "user" if p["form"] == "usera" else p["form"], "esym": p.get("esym", 0),
+                  "exact": p["form"] in ("user", "fallible", "recover"), "unit": cg["kinds"][p["lhs"]] == "unit", "syms": p["syms"],
                   "fail": p["fail"] if p["fail"]["on"] else {"on": False, "s": 1, "m": 1, "r": 0}})
     for s in cg["starts"]:
-        P.append({"tag": 0, "form": "start", "exact": False, "unit": False, "syms": [{"k": "sym", "i": 1, "sel": False}],
+        P.append({"tag": 0, "form": "start", "esym": 0, "exact": False, "unit": False, "syms": [{"k": "sym", "i": 1, "sel": False}],
                   "fail": {"on": False, "s": 1, "m": 1, "r": 0}})
     return {"id": "%s@%s" % (cg["id"], start), "G": G, "sp": sp[start], "n": n, "inject": inject, "P": P}
 
@@ -112,6 +154,8 @@ def _symtext(cg, p, s):
     if s["k"] == "R":
         return "@R"
     x = p["rhs"][s["i"] - 1]
+    if x == "error":
+        return "!"
     return '"%s"' % x if x in cg["ts"] else x
 
 
@@ -119,6 +163,22 @@ def render_alt(cg, p):
     form = p["form"]
     parts = []
     names = []
+    if form == "recover":
+        e = p["esym"] - 1
+        for j, s in enumerate(p["syms"]):
+            t = _symtext(cg, p, s)
+            if j == e - 1:
+                parts.append("<el:%s>" % t)
+            elif j == e:
+                parts.append("<ee:%s>" % t)
+            elif j == e + 1:
+                parts.append("<er:%s>" % t)
+            elif s["sel"]:
+                names.append("x%d" % j)
+                parts.append("<x%d:%s>" % (j, t))
+            else:
+                parts.append(t)
+        return "%s => recovered(%d, &ee, el, er, kids![%s])," % (" ".join(parts), p["tag"], ", ".join(names))
     for j, s in enumerate(p["syms"]):
         t = _symtext(cg, p, s)
         if form in ("user", "fallible"):
@@ -166,3 +226,39 @@ def render(cg, algo="lane", backend="table"):
                 body.append("    " + render_alt(cg, p))
         lines.append("%s%s%s = {\n%s\n};" % (vis, nt, ty, "\n".join(body)))
     return "\n".join(lines) + "\n"
+
+
+def run_case(cg, start, n, inject, export, auto, backend, cid):
+    """the record LRMachine.tla reads: the core grammar (terminals in LALRPOP's
+    order) with the exported automaton re-indexed to the core productions"""
+    import lp
+    G, sp = tla_grammar(cg)
+    ec = eval_case(cg, start, n, inject)
+    ts = [lp.clean_name(t) for t in export["terminals"]]
+    if sorted(ts) != sorted(G["ts"]):
+        return None
+    G["ts"] = ts
+    # map exported production indices to core indices by (lhs, rhs), in order of occurrence
+    mine = {}
+    for i, p in enumerate(G["prods"]):
+        mine.setdefault((p["lhs"], tuple(p["rhs"])), []).append(i + 1)
+    eg = lp.export_grammar(export)
+    remap = {}
+    for i, p in enumerate(eg["prods"]):
+        k = (p["lhs"], tuple(p["rhs"]))
+        if p["lhs"] in ("@L", "@R") and not p["rhs"]:
+            remap[i + 1] = 0   # the lookaround nonterminals are inlined everywhere; their definitions stay behind
+            continue
+        if k not in mine or not mine[k]:
+            return None
+        remap[i + 1] = mine[k].pop(0)
+    states = lp.export_automaton(export, auto)
+    for st in states:
+        for it in st["items"]:
+            it["p"] = remap[it["p"]]
+        for r in st["reds"]:
+            r["p"] = remap[r["p"]]
+        if any(it["p"] == 0 for it in st["items"]) or any(r["p"] == 0 for r in st["reds"]):
+            return None
+    return {"id": cid, "G": G, "sp": sp[start], "n": n, "inject": inject, "P": ec["P"],
+            "recovery": bool(export["uses_error_recovery"]), "backend": backend, "states": states}
